@@ -459,7 +459,7 @@ func (cx *Ctx) checkDecodesWholeMessage(r *Report, rule, dk string) {
 		r.Fail(rule, dk+":whole-message", "", "anchor not found")
 		return
 	}
-	f = throughDelegation(f)
+	f = decodeWorker(w, throughDelegation(f))
 	var inflate, unmarshal *ssa.Call
 	for _, c := range callsIn(f) {
 		call, ok := c.(*ssa.Call)
@@ -505,6 +505,86 @@ func (cx *Ctx) checkDecodesWholeMessage(r *Report, rule, dk string) {
 		}
 	}
 	r.Check(bad == "", rule, dk+":whole-message", w.FnPos(f), "InflateAndDecode of the complete transport string, then xml.Unmarshal of exactly those bytes", bad)
+}
+
+// decodeWorker: the function that does a decoder's work. A decoder that does not call InflateAndDecode itself but one
+// helper of its own package that does (`decodeInto(encoding, b64, message, target)`, up to two levels) is judged on
+// that helper: the same bytes-then-Unmarshal discipline, one level down.
+func decodeWorker(w *World, f *ssa.Function) *ssa.Function {
+	calls := func(g *ssa.Function) bool {
+		for _, c := range callsIn(g) {
+			if cal := calleeOf(c); cal != nil && w.FuncKey(cal) == "xml.InflateAndDecode" {
+				return true
+			}
+		}
+		return false
+	}
+	cur := f
+	for depth := 0; depth < 3 && cur != nil; depth++ {
+		if calls(cur) {
+			return cur
+		}
+		var next *ssa.Function
+		for _, c := range callsIn(cur) {
+			g := calleeOf(c)
+			if g == nil || g.Blocks == nil || g.Pkg != cur.Pkg || g == cur {
+				continue
+			}
+			h := throughDelegation(g)
+			if calls(h) || func() bool {
+				for _, c2 := range callsIn(h) {
+					if g2 := calleeOf(c2); g2 != nil && g2.Blocks != nil && g2.Pkg == cur.Pkg && calls(throughDelegation(g2)) {
+						return true
+					}
+				}
+				return false
+			}() {
+				if next != nil && next != h {
+					return f // ambiguous: judge the decoder itself
+				}
+				next = h
+			}
+		}
+		cur = next
+	}
+	return f
+}
+
+// decoderErrorOK: ev is the error of InflateAndDecode / encoding/xml, possibly handed up by a helper of the decoder's
+// own package whose every error return is such an error.
+func decoderErrorOK(w *World, ev ssa.Value, pkg *ssa.Package, depth int) bool {
+	var c *ssa.Call
+	switch x := ev.(type) {
+	case *ssa.Extract:
+		c, _ = x.Tuple.(*ssa.Call)
+	case *ssa.Call:
+		c = x
+	}
+	if c == nil {
+		return false
+	}
+	n := calleeName(c)
+	if strings.HasSuffix(n, "xml.InflateAndDecode") || n == "encoding/xml.Unmarshal" || n == "(*encoding/xml.Decoder).Decode" {
+		return true
+	}
+	g := calleeOf(c)
+	if g == nil || g.Blocks == nil || g.Pkg != pkg || depth >= 2 {
+		return false
+	}
+	res := g.Signature.Results()
+	if res.Len() == 0 || !isErrorType(res.At(res.Len()-1).Type()) {
+		return false
+	}
+	for _, ret := range returnsOf(g) {
+		e := ret.Results[len(ret.Results)-1]
+		if isNilConst(e) {
+			continue
+		}
+		if !decoderErrorOK(w, e, pkg, depth+1) {
+			return false
+		}
+	}
+	return true
 }
 
 func matchAnyCall(ms ...func(ssa.CallInstruction) bool) func(ssa.CallInstruction) bool {
